@@ -95,6 +95,7 @@ vh::Outcome run_def(const vh::Case& c, Prop prop) {
                         long b0 = vrt::me().blocking_ops;
                         long long w0 = vrt::me().waited_ns;
                         bool timed_for = false;
+                        bool excl_at_call = core && core->owner >= 0; long eacq0 = core ? core->excl_acqs : 0;
                         auto h = [&] {
                           try {
                             if (kind == 4) return d.lock_shared();
@@ -108,6 +109,10 @@ vh::Outcome run_def(const vh::Case& c, Prop prop) {
                         if (bool(h) != owns_shared())
                             vrt::fail("handle-truth", std::string("deferred_guarded shared handle is ") + (h ? "non-null" : "null") + " but the caller " + (owns_shared() ? "holds" : "does not hold") + " the lock");
                         if (!h) st.lbl_try_null = true;
+                        // readers can share: a shared try fails only if somebody held (or took) the lock exclusively during the call
+                        // (a concurrent reader's drain attempt is an exclusive acquisition and counts)
+                        if (share_capable && !h && core && !excl_at_call && eacq0 == core->excl_acqs)
+                            vrt::fail("reader-blocked-by-reader", "a shared try-acquisition on deferred_guarded failed although only readers held the lock during the call");
                         if (h && (op.a & 2)) { h.unlock(); if (h) vrt::fail("unlock-not-null", "shared handle non-null after unlock()"); if (owns_shared()) vrt::fail("unlock-not-released", "lock still held after shared handle.unlock()"); }
                         if (h) {
                             st.shared_alive++;
